@@ -11,6 +11,7 @@ import Driver.ParserState
 import Driver.Refs
 import Driver.Alt
 import Driver.Lines
+import Driver.Link
 
 def dispatch (line : String) : String :=
   match line.trimAscii.toString.splitOn " " with
@@ -26,6 +27,7 @@ def dispatch (line : String) : String :=
   | "refs" :: args => Driver.Refs.handle args
   | "alt" :: args => Driver.Alt.handle args
   | "lines" :: args => Driver.Lines.handle args
+  | "link" :: args => Driver.Link.handle args
   | _ => "bad-stream"
 
 partial def loop (h : IO.FS.Stream) (out : IO.FS.Stream) : IO Unit := do
